@@ -86,14 +86,14 @@ func init() {
 	}
 	checks["C08"] = &CheckDef{
 		Pkgs:        []string{"./control"},
-		Harness:     []string{"control:Verif_C08_lookup", "control:Verif_C08_janitor", "control:Verif_C08_lru", "control:Verif_C08_reload"},
+		Harness:     []string{"control:Verif_C08_lookup", "control:Verif_C08_fixed_ttl_case", "control:Verif_C08_janitor", "control:Verif_C08_lru", "control:Verif_C08_reload"},
 		MaxIter:     400,
 		Level:       "other",
 		LevelText:   "Entries are created only through the real production insert path (UpdateDnsCacheTtlWithKey -> __updateDnsCacheDeadline with the NewCache closure of ControlPlane.dnsControllerOption and prepackResponseBeforeStore); every instant (insert, lookups, janitor), every TTL, and the optimistic/stale/fixed-TTL/size knobs are bit-vector variables. The solver shows for all of them: exact scoping of keys, served iff fresh or (optimistic and inside the stale window), exactly one refresh request per stale period, shown TTL >= 1 and <= remaining + 1 + 15 s, janitor removes exactly the run-out entries, LRU evicts exactly the least recently used, reload clone keeps deadline/packed TTL. 64-bit division by 10^9 is decided by cvc5 --solve-bv-as-int when z3 gives up.",
 		LevelNote:   "Trusted: go/ssa, executor, z3/cvc5, harness spec. time.Time is abstracted to one int64 Unix-nanosecond instant (DESIGN 2.6); miekg/dns wire packing is replaced by an opaque blob that remembers the TTL it was packed with; kernel-table side effects (C10) are no-ops; clocks are arbitrary non-decreasing instants below 2^61 ns.",
 		Technique:   techniqueText,
 		Explanation: "Bounded symbolic execution of the DNS cache insert, lookup, janitor, LRU and reload-clone code with symbolic instants.",
-		Bounds:      map[string]string{"quick": "lookup: 1 entry, 1 insert + <=2 lookups at arbitrary instants, ttl 0..31536000, stale window 0..3600 s, fixed ttl 0..86400; janitor: 2 entries, 1 pass; LRU: 4 entries with arbitrary distinct access times, limit 1..3; reload: 1 clone", "thorough": "same with LRU over 6 entries"},
+		Bounds:      map[string]string{"quick": "fixed_ttl_case: one insert of an answer to the name spelled 4 ways (case, final dot), symbolic fixed ttl and record ttl; lookup: 1 entry, 1 insert + <=2 lookups at arbitrary instants, ttl 0..31536000, stale window 0..3600 s, fixed ttl 0..86400; janitor: 2 entries, 1 pass; LRU: 4 entries with arbitrary distinct access times, limit 1..3; reload: 1 clone", "thorough": "same with LRU over 6 entries"},
 		Outside:     []string{"DNS wire packing (miekg/dns)", "concurrent lookups (refresh flag is a CAS; sequential here)", "async BPF update worker"},
 		Assumptions: []string{"time.Time abstraction: Unix nanoseconds, no zones", "Msg.Pack replaced by TTL-carrying blob", "clock non-decreasing, < 2^61 ns"},
 		QuickBudget: 8 * time.Minute, ThoroughBudget: 20 * time.Minute,
@@ -129,28 +129,28 @@ func init() {
 	}
 	checks["C04"] = &CheckDef{
 		Pkgs:        []string{"./component/routing"},
-		Harness:     []string{"component/routing:Verif_C04_routing", "component/routing:Verif_C04_domain", "component/routing:Verif_C04_dns"},
+		Harness:     []string{"component/routing:Verif_C04_routing", "component/routing:Verif_C04_domain", "component/routing:Verif_C04_dns", "component/routing:Verif_C04_geosite_expand"},
 		MaxIter:     400,
 		Level:       "other",
 		LevelText:   "Rule lists of symbolic shape are passed through the real ApplyRulesOptimizers with the real AliasOptimizer, DatReaderOptimizer.Optimize (loader stubbed), MergeAndSortRulesOptimizer and DeduplicateParamsOptimizer - the traffic pipeline and the DNS pipelines (no alias). The meaning of the list before and after is evaluated on the AST as one SMT term each, over an arbitrary truth assignment of the atoms (canonical function, canonical key, value); the solver shows the two decisions (outbound including its parameters, or fallback) equal for every assignment.",
 		LevelNote:   "Trusted: go/ssa, executor, z3, the first-match evaluator in the harness. geodata files are replaced by fixed expansions; mohae/deepcopy by the executor's structural copy; atoms are free booleans (the link from atoms to packets is C01/C07/C11/C12). Shapes bounded per tier.",
 		Technique:   techniqueText,
 		Explanation: "Bounded symbolic execution of the rule optimizers against AST-level meaning under all atom valuations.",
-		Bounds:      map[string]string{"quick": "shapes: two neighbouring single-condition rules with <=2 values each | a two-condition rule followed by a single-condition rule; functions dip/ip/sip, domain (+dip), qname (+dip); negation symbolic; keys '', domain, suffix, contains, keyword, full, geosite/geoip; outbound spellings proxy / proxy(mark:1) / direct", "thorough": "adds three single-condition rules in a row"},
-		Outside:     []string{"geodata file decoding", "SplitRequestRules", "rules with more than two conditions / values"},
+		Bounds:      map[string]string{"quick": "shapes: two neighbouring single-condition rules with <=2 values each | a two-condition rule followed by a single-condition rule; functions dip/ip/sip, domain (+dip), qname (+dip); negation symbolic; keys '', domain, suffix, contains, keyword, full, geosite/geoip; outbound spellings proxy / proxy(mark:1) / direct; geosite_expand: 3 look-ups in any order among 4 spellings of one code with and without @attr over a 4-entry model file", "thorough": "adds three single-condition rules in a row"},
+		Outside:     []string{"geodata file decoding (geosite_expand runs the real expansion and its cache over a stubbed file layer; geoip expansion is stubbed)", "SplitRequestRules", "rules with more than two conditions / values"},
 		Assumptions: []string{"geosite/geoip codes expand to fixed lists", "deep copy is structural"},
 		QuickBudget: 8 * time.Minute, ThoroughBudget: 20 * time.Minute,
 	}
 	checks["C01"] = &CheckDef{
 		Pkgs:    []string{"./control", "./component/routing"},
-		Harness: []string{"control:Verif_C01_one_rule", "control:Verif_C01_two_rules", "control:Verif_C01_shared_set", "control:Verif_C01_key_groups", "component/routing:Verif_C01_value_parsers"},
+		Harness: []string{"control:Verif_C01_one_rule", "control:Verif_C01_two_rules", "control:Verif_C01_shared_set", "control:Verif_C01_shared_mac", "control:Verif_C01_key_groups", "component/routing:Verif_C01_value_parsers"},
 		MaxIter: 600,
 		Level:   "other",
 		LevelText: "A routing program of symbolic shape (condition kinds, '!' flags, one or two values or key groups, outbound with mark/must parameters, must_rules, fallback) is lowered by the real NormalizedProgram.Lower / RulesBuilder.Apply / ParseOutbound into the real RoutingMatcherBuilder.add* methods with symbolic typed values (ports, prefixes, MACs, process names, DSCP, protocol/version masks), compiled by the real BuildUserspace, and a fully symbolic packet is routed through the real ControlPlane.Route / RoutingMatcher.Match. The solver shows (outbound, mark, must) equal to a first-match evaluator written from the statement, for every packet and every value.",
 		LevelNote: "Trusted: go/ssa, executor, z3/cvc5, the evaluator in the harness. Contracts used instead of re-executing the set matchers: K-LPM (trie.Prefix2bin128 + NewTrieFromPrefixes + HasPrefix decide CIDR containment on the IPv4-mapped form; proved in C12) and K-DOM (the domain matcher's bitmap has bit i set iff the set added under RuleIndex i matches; C11) - each domain set's match is a free boolean. The text-to-value parsers (ParsePortRange, ParseMac, parsePrefixes ...) are bypassed: parser closures hand symbolic typed values to the real add* methods.",
 		Technique: techniqueText,
 		Explanation: "Bounded symbolic execution of rule lowering, compilation and the userspace matcher against a first-match specification.",
-		Bounds:  map[string]string{"quick": "value_parsers: written values -> typed values (process names of 1/15/16/17/20 symbolic bytes, port ranges, l4proto / ipversion words, MAC, prefixes); key_groups: domain(full, suffix) && {dport | l4proto} in either written order; shared_set: sip(P) -> x ; ip(P) -> y over one de-duplicated prefix set P (3 prefix forms), either negated; one rule + fallback: each of the 10 condition kinds, 1-2 values (domain: 1-2 key groups), negation symbolic, 4 outbound forms incl. must_rules; two rules + fallback: port && {ip | domain | mac} (1-2 values) then sport, first rule must_rules or a marked group; prefix forms v4/24, v6/64, v4/0; packet fully symbolic (both address forms for the destination, with and without a domain)", "thorough": "all 10 kinds in every position of the two-rule shape, 7 outbound forms, prefix forms /0 /24 /32 /64 /128"},
+		Bounds:  map[string]string{"quick": "value_parsers: written values -> typed values (process names of 1/15/16/17/20 symbolic bytes, port ranges, l4proto / ipversion words, MAC, prefixes); key_groups: domain(full, suffix) && {dport | l4proto} in either written order; shared_set: sip(P) -> x ; ip(P) -> y over one de-duplicated prefix set P (3 prefix forms), either negated; shared_mac: mac(M) && port -> x ; mac(M) -> y over the same symbolic address, either negated; one rule + fallback: each of the 10 condition kinds, 1-2 values (domain: 1-2 key groups), negation symbolic, 4 outbound forms incl. must_rules; two rules + fallback: port && {ip | domain | mac} (1-2 values) then sport, first rule must_rules or a marked group; prefix forms v4/24, v6/64, v4/0; packet fully symbolic (both address forms for the destination, with and without a domain)", "thorough": "all 10 kinds in every position of the two-rule shape, 7 outbound forms, prefix forms /0 /24 /32 /64 /128"},
 		Outside: []string{"more than two rules / two conditions per rule (the per-match-set loop state is the same for any length)", "text-to-value parsing inside the matcher harnesses (the parsers are checked on their own in value_parsers and bypassed elsewhere)", "config.patchMustOutbound"},
 		Assumptions: []string{"K-LPM (C12)", "K-DOM (C11): domain-set hits are free booleans", "logger is a no-op"},
 		QuickBudget: 8 * time.Minute, ThoroughBudget: 25 * time.Minute,
@@ -185,14 +185,14 @@ func init() {
 	}
 	checks["C11"] = &CheckDef{
 		Pkgs:    []string{"./component/routing/domain_matcher", "./pkg/trie", "./common/bitlist"},
-		Harness: []string{"common/bitlist:Verif_C11_bitlist", "pkg/trie:Verif_C11_trie_contract", "pkg/trie:Verif_C11_trie_words", "component/routing/domain_matcher:Verif_C11_kinds", "component/routing/domain_matcher:Verif_C11_invalid_skipped"},
+		Harness: []string{"common/bitlist:Verif_C11_bitlist", "pkg/trie:Verif_C11_trie_contract", "pkg/trie:Verif_C11_trie_words", "component/routing/domain_matcher:Verif_C11_kinds", "component/routing/domain_matcher:Verif_C11_invalid_skipped", "component/routing/domain_matcher:Verif_C11_letter_case"},
 		MaxIter: 2000,
 		Level:   "other",
 		LevelText: "The real AhocorasickSlimtrie (AddSet, Build, MatchDomainBitmap, ToSuffixTrieString) over the real succinct trie (trie.NewTrie, HasPrefix, countZeros, selectIthOne, init) and packed bit list (CompactBitList Set/Get/Append/Tighten) is executed with pattern sets of two kinds at bit indices 1 and 33 or 1 and 9 (different / same bitmap word) and a symbolic host name (mixed case, optional trailing dot): the solver shows each set's bit equal to the statement's meaning of its kind (full / suffix with and without leading dot / keyword) and all other bits clear, that patterns with characters outside the alphabet are skipped without effect, that the trie decides 'some key is a prefix of the word' for key sets with nested and duplicate keys and the alphabet's zero character, also for a key set whose rank/select tables span several 64-bit words, and that the bit list reads back what was written for every unit width 1..17 and arbitrary values.",
 		LevelNote: "Trusted: go/ssa, executor, z3, the kind semantics written in the harness. The Aho-Corasick automaton (third party) is used through its contract (Contains <=> a pattern is a substring); Go regexp (regex kind) is not exercised. Patterns and trie keys are chosen from pools so that the succinct structure is built concretely; names / words / bit-list values are symbolic.",
 		Technique: techniqueText,
 		Explanation: "Bounded symbolic execution of the domain matcher, the succinct trie and the packed bit list.",
-		Bounds:  map[string]string{"quick": "kinds: set at bit 1 = 1-2 patterns from {a, a.b, .b, ab, b.a, a-b} of any of 3 kinds, set at bit 33 = {a.b} of any kind; names of 1-3 symbolic bytes over {a,b,A,.} with optional trailing dot; trie contract: 2 keys from an 8-key pool, words <=3 bytes over {0,a,b,.}; trie words: 67 keys (3-word tables), every 3-letter query over a..l; bit list: widths 1..17, 6 arbitrary values, one overwrite", "thorough": "names <=4 bytes over {a,b,A,.,-}, 3 keys from a 10-key pool, words <=4 bytes incl. '^' and an invalid byte"},
+		Bounds:  map[string]string{"quick": "kinds: set at bit 1 = 1-2 patterns from {a, a.b, .b, ab, b.a, a-b} of any of 3 kinds, set at bit 33 = {a.b} of any kind; names of 1-3 symbolic bytes over {a,b,A,.} with optional trailing dot; trie contract: 2 keys from an 8-key pool, words <=3 bytes over {0,a,b,.}; trie words: 67 keys (3-word tables), every 3-letter query over a..l; bit list: widths 1..17, 6 arbitrary values, one overwrite; letter_case: each of a-z, 0, 9, '-', '_' in upper case against its lower-case pattern, 3 kinds, optional trailing dot", "thorough": "names <=4 bytes over {a,b,A,.,-}, 3 keys from a 10-key pool, words <=4 bytes incl. '^' and an invalid byte"},
 		Outside: []string{"regex kind (Go regexp)", "the Aho-Corasick automaton's own correctness", "geosite-scale sets"},
 		Assumptions: []string{"ahocorasick.Matcher.Contains by contract", "runtime.GOMAXPROCS = 8; goroutines of Build run to completion in spawn order"},
 		QuickBudget: 8 * time.Minute, ThoroughBudget: 20 * time.Minute,
@@ -257,7 +257,7 @@ func init() {
 		LevelNote: "NOT covered, and stated as outside the claim: the text -> parse tree -> sections step (ANTLR's ATN interpreter over generated tables is beyond the executor: thousands of table-driven states per token), the reflection-driven typed configuration (package reflect is not encoded). The claim is therefore partial: the capacity, include-scope and include-merge clauses only.",
 		Technique: techniqueText,
 		Explanation: "Bounded symbolic execution of rule-program compilation at the match-set limit and of the include-scope test.",
-		Bounds: map[string]string{"quick": "29..34 rules + fallback, limit 32, kinds of rules 28.. symbolic (qname/qtype), symbolic 16-bit query type; include paths: 5 symbolic bytes over {a . /} under /etc/dae; include merge: 5 concrete include graphs over 7 model files", "thorough": "include paths of 7 symbolic bytes"},
+		Bounds: map[string]string{"quick": "29..34 rules + fallback, limit 32, kinds of rules 28.. symbolic (qname/qtype), symbolic 16-bit query type; include paths: 5 symbolic bytes over {a . /} under /etc/dae; include merge: 6 concrete include graphs over 8 model files (one with a listed order that is not alphabetical)", "thorough": "include paths of 7 symbolic bytes"},
 		Outside: []string{"config text -> AST (ANTLR)", "config.SectionParser / ParamParser (reflection)", "file permissions check and real globbing in the merger (modelled)", "symlinks (EnsureFileInSubDir is lexical)", "the main routing section's kernel-side capacity (rejected by the kernel map in production)"},
 		Assumptions: []string{"consts.MaxMatchSetLen lowered to 32 (it is a variable; all tables are sized from it)"},
 		QuickBudget: 10 * time.Minute, ThoroughBudget: 20 * time.Minute,
